@@ -20,7 +20,7 @@ def gen_config(rng, i):
         "headers": rng.sample(["content-type", "x-custom-header", "authorization", "x-a"], rng.range(0, 3)),
         "expose": rng.sample(["content-type", "x-custom-header", "etag"], rng.range(0, 2)),
         "credentials": rng.choice(["true", "false", None]),
-        "max_age": rng.choice(["86400", "600", "0", "1"]),
+        "max_age": rng.choice(["86400", "600", "0", "1", "-1", "1h", "", "3600s", "+5"]),
     }
 
 
